@@ -38,6 +38,16 @@ def _ident(r, pool, taken, prefix=""):
     return w
 
 
+def _with_defaults(r, params):
+    """default values for a tail of the parameters (in-parameters of a primitive type)"""
+    if params and r.random() < 0.3:
+        k = r.randint(1, len(params))
+        for p_ in params[-k:]:
+            p_["direction"] = "in"
+            p_["default"] = {"bool": "true", "double": "1.5", "float": "0.5f", "char": "'c'"}.get(p_["type"], "0")
+    return params
+
+
 def rand_spec(r, wellformed=False, relations=None, focus=None):
     taken = set()
     classes = []
@@ -62,6 +72,10 @@ def rand_spec(r, wellformed=False, relations=None, focus=None):
             for k_ in range(nops):
                 ctor = (kind == "class" and r.random() < 0.35 and not (wellformed and nconst)) or (force_ctor and k_ == 0)
                 oname = name if ctor else r.choice(VERBS) + r.choice(["", "", "All", "Now"])
+                if not ctor and c["ops"] and r.random() < 0.25:
+                    oname = r.choice(c["ops"])["name"]          # an overload: same name, another number of parameters
+                    if oname == name:
+                        ctor = True
                 # a modelled constructor often takes one value per read-only attribute - as many parameters as the
                 # initialising constructor the generator writes on its own
                 n = nconst if ctor and (r.random() < 0.5 or (force_ctor and k_ == 0)) else r.randint(0, 3)
@@ -70,7 +84,7 @@ def rand_spec(r, wellformed=False, relations=None, focus=None):
                 sigs.add((oname, n))
                 static = not ctor and kind == "class" and r.random() < 0.15
                 c["ops"].append(dict(name=oname, ret="void" if ctor else r.choice(PRIM + ["void", "void"]),
-                                     params=[dict(name="p%d" % i, type=r.choice(PRIM), direction=r.choice(["in", "inout", "out"])) for i in range(n)],
+                                     params=_with_defaults(r, [dict(name="p%d" % i, type=r.choice(PRIM), direction=r.choice(["in", "inout", "out"])) for i in range(n)]),
                                      virtual=kind == "interface" or (not ctor and r.random() < 0.2 and not (wellformed and static)),
                                      static=static,
                                      const=not ctor and r.random() < 0.2 and not (wellformed and static),
@@ -92,6 +106,17 @@ def rand_spec(r, wellformed=False, relations=None, focus=None):
                 a["tref"], a["mod"] = len(classes) - 1, ""
             attrs.append(a)
         classes.append(dict(name=sn, ns=r.choice([ns, "App", ""]), kind="struct", doc="", attrs=attrs, ops=[], literals=[], packed=True))
+    if focus == "overloads":
+        # overloads that differ only by parameters with default values: Set(int) / Set(int, int = 0) / Set(int, int = 0, bool = true)
+        cn = _ident(r, WORDS, taken, "C")
+        verb = r.choice(VERBS)
+        ops = []
+        for n_ in r.sample([0, 1, 2, 3], r.randint(2, 3)):
+            ps = [dict(name="p%d" % i, type=r.choice(PRIM), direction="in") for i in range(n_)]
+            for p_ in ps[1:] if r.random() < 0.8 else []:
+                p_["default"] = {"bool": "true", "double": "1.5", "float": "0.5f", "char": "'c'"}.get(p_["type"], "0")
+            ops.append(dict(name=verb, ret="void", params=ps, virtual=False, static=False, const=False, vis="public", doc=""))
+        classes.append(dict(name=cn, ns=r.choice(NSS), kind="class", doc="", attrs=[], ops=ops, literals=[]))
     spec = dict(diagram="Synth" + r.choice(["", "A", "B"]), classes=classes, inherits=[], assocs=[])
     if relations if relations is not None else r.random() < 0.5:
         add_relations(r, spec, wellformed)
@@ -146,6 +171,8 @@ def add_typed_members(r, spec):
                 a["name"] = a["name"] + "_" + r.choice(["of_the_previous_frame", "as_received_from_peer", "pending_confirmation"])
         for o in c["ops"]:
             for p_ in o["params"]:
+                if "default" in p_:
+                    continue
                 if r.random() < 0.2 and (by_ptr or by_value):
                     j = r.choice(by_ptr + [k for k in by_value if cs[k]["kind"] == "enum"])
                     p_["tref"], p_["mod"] = j, ("" if cs[j]["kind"] == "enum" else r.choice(["*", "&"]))
@@ -326,7 +353,7 @@ def build(spec):
             for p in o["params"]:
                 op.PARAMETERS.append({'const': "const" if p["direction"] == "in" else "", 'type': qual(p["tref"]) if "tref" in p else p["type"],
                                       'name': p["name"], 'modifier': p.get("mod", ""),
-                                      'defaultvalue': "", 'multiplicity': "", 'direction': p["direction"]})
+                                      'defaultvalue': p.get("default", ""), 'multiplicity': "", 'direction': p["direction"]})
             k.OPERATIONS.append(op)
         diagram.classes[k.ID] = k
     for j, h in enumerate(spec.get("inherits", [])):
